@@ -30,7 +30,7 @@ pub static DEF: CheckDef = CheckDef {
 };
 
 fn families(t: Tier) -> Vec<(&'static str, u64)> {
-    vec![("history", t.n(8_000, 150_000)), ("training", t.n(600, 20_000))]
+    vec![("history", t.n(20_000, 300_000)), ("training", t.n(600, 20_000))]
 }
 fn floors(_t: Tier) -> Vec<(&'static str, u64)> {
     vec![
@@ -94,6 +94,12 @@ pub fn run_case(ctx: &mut Ctx, fam: &str, _k: u64, r: &mut Rng) {
     cfg.max_ops = 100;
     cfg.untracked_eighths = 1;
     cfg.max_leaves = 4;
+    if r.chance(1, 2) {
+        // larger arrays (up to 64 elements): size-dependent shortcuts only engage above some threshold
+        cfg.max_rank = 2;
+        cfg.max_dim = 8;
+        cfg.untracked_eighths = 3;
+    }
     let mut h = match Hist::new(r, &cfg, true) {
         Ok(h) => h,
         Err(_) => return,
@@ -167,6 +173,7 @@ pub fn run_case(ctx: &mut Ctx, fam: &str, _k: u64, r: &mut Rng) {
     ctx.count("snapshot_reverifications", h.snapshot_checks);
     for s in &h.registry {
         ctx.count(&format!("registered_{}", s.kind), 1);
+        ctx.count(if s.a.is_some() { "snapshots_through_kept_clones" } else { "snapshots_in_place(no extra reference)" }, 1);
     }
     ctx.hist("family", fam);
     ctx.sample(fam, || h.text());
